@@ -215,5 +215,22 @@ CHECKS["C11"] = {
             "delegates or broken links.",
     "note": "notification on delegate swap unconstrained (statement silent); listenable=True; depth 4/5",
 }
+CHECKS["C13"] = {
+    "category": "model_checking",
+    "technique": MC + " (history BFS with fresh class hierarchies per execution; independent resolver + twin-hierarchy differential + explicit policy clauses)",
+    "text": "Three base kinds (HasTraits, HasStrictTraits, HasPrivateTraits) x 13 names (exact matches, names equal to "
+            "a wildcard prefix, names matching one or two wildcard prefixes, private names, undeclared names) on a "
+            "base class declaring Int/ReadOnly/Constant/Event and two wildcards and a subclass declaring a longer "
+            "wildcard and re-declaring one trait. Every history up to depth 5 (6 thorough) over get / set(int) / "
+            "set(str) / set(None) / del / add_trait / remove_trait on an instance of each class, with *definition "
+            "of the subclass* as an event. Each step must give the same outcome class and value as on a twin "
+            "hierarchy in which the governing trait (per an independent resolver: instance trait > declared > "
+            "longest wildcard > class default) is declared explicitly, and must satisfy the statement's policy "
+            "clauses (strict: AttributeError/TraitError, ReadOnly exactly one defining assignment, Constant never "
+            "written, Event written not read, private names untyped, remove_trait restores the class rule).",
+    "note": "dunder names excluded (reserved by documented design); per-name histories (interactions between "
+            "different names only through class-level caches, which the late-subclass event exercises); known "
+            "finding: wildcard trait cached in the base class before a subclass is defined",
+}
 
 NOT_CLAIMED = {}
